@@ -91,6 +91,14 @@ def run(ctx):
                 mods[slot] = rt.Device(devices.random_identity(rng, vend_ids, type_ids), rng, b.log)
                 routes[((1, slot),)] = mods[slot]
             t = rt.RefTarget(rng, front=front, routes=routes, log=b.log)
+            # every third device appends a second common-packet item to its ListIdentity reply (e.g. the CIP Security item 0x86): the
+            # identity is still the one in the identity item
+            extra_item = b""
+            if sc % 3 == 1:
+                xd = bytes(rng.randrange(256) for _ in range(rng.choice([0, 2, 6, 10])))
+                extra_item = rng.choice([0x0086, 0x0087, 0x8002]).to_bytes(2, "little") + len(xd).to_bytes(2, "little") + xd
+            t.policy.list_identity_extra = extra_item
+            res.seen("list-identity-items", 2 if extra_item else 1)
             b.set_target(t)
             # --- CIPDriver.list_identity(path) (classmethod: open, ListIdentity, close)
             st, got = b.call("list_identity", p.CIPDriver.list_identity, b.host)
@@ -125,7 +133,7 @@ def run(ctx):
                     return []
                 if h["command"] != 0x63 or addr[1] != 44818:
                     return []
-                return [enc.build_frame(0x63, 0, (1).to_bytes(2, "little") + i.list_identity_item(), context=h["context"]) for i in idents]
+                return [enc.build_frame(0x63, 0, (2 if extra_item else 1).to_bytes(2, "little") + i.list_identity_item() + extra_item, context=h["context"]) for i in idents]
             b.net.udp_handler = udp
             req = p.packets.ListIdentityRequestPacket()
             msg = req.build_request(None, 0, b"\x00" * 8, 0)
@@ -148,7 +156,9 @@ def run(ctx):
             micro = rng.random() < 0.4
             cid = devices.random_identity(rng, vend_ids, type_ids, micro800=micro)
             ctl = devices.ControllerDevice(cid, rng, b.log)
-            t2 = rt.RefTarget(rng, front=ctl, routes={((1, 0),): ctl}, log=b.log)
+            nb_slot = rng.choice([1, 3, 9])
+            neighbour = rt.Device(devices.random_identity(rng, vend_ids, type_ids), rng, b.log)
+            t2 = rt.RefTarget(rng, front=ctl, routes={((1, 0),): ctl, ((1, nb_slot),): neighbour}, log=b.log)
             b.set_target(t2)
             ld = p.LogixDriver(b.host, init_tags=False)
             st, out = b.call("open", ld.open)
@@ -157,6 +167,12 @@ def run(ctx):
                 compare("get_plc_info(open)", info, cid, extra_ok=("keyswitch", "name", "programs", "tasks", "modules"))
                 st, got = b.call("get_plc_info", ld.get_plc_info)
                 compare("get_plc_info", got, cid, extra_ok=("keyswitch",))
+                if not micro:
+                    # asking for the module in another slot must not change whose identity get_plc_info() reports afterwards
+                    st, got = b.call("get_module_info", ld.get_module_info, nb_slot)
+                    compare("get_module_info(neighbour)", got, neighbour.identity)
+                    st, got = b.call("get_plc_info", ld.get_plc_info)
+                    compare("get_plc_info(after get_module_info)", got, cid, extra_ok=("keyswitch",))
                 j = [e for e in ctl.journal if e["segs"][:1] == [("logical", "class", 1)]]
                 want_tr = "ucmm" if micro else "unconnected_send"
                 if not j or j[-1]["transport"] != want_tr:
